@@ -34,7 +34,7 @@ from ..cfg import cfg_of
 from ..flow import describe_path, find_path as flow_find_path, no_exc as _no_exc
 from ..linexpr import Env, Lin, NONE, Seq, fresh, local_edges, loop_heads, paths_from, run_steps, segments
 from ..model import AnchorError, Func, UnknownIdiom, dotted, short, unparse
-from .c07_helpers import (ASGI, BUDGET, WSGI, Inliner, Verdicts, asgi_constructor, asgi_drained, asgi_indexing, asgi_initial_position, asgi_keys, asgi_loops,
+from .c07_helpers import (ASGI, BUDGET, WSGI, DelEnv, Inliner, Verdicts, asgi_constructor, asgi_drained, asgi_indexing, asgi_initial_position, asgi_keys, asgi_loops,
                           asgi_positions, lazy_wrapping, require_attrs, run_steps_inl)
 from .common import ancestors, enclosing_map, implied, walk_self
 
@@ -379,7 +379,7 @@ def _exec_reader(w, f, cfg, setup):
     if heads and sp and any(isinstance(n, ast.Name) and n.id == sp and isinstance(n.ctx, ast.Store) for n in walk_self(f.node)):
         raise UnknownIdiom('%s: the size parameter is reassigned in a function with loops' % f.qual)
     for _start, steps, end in segments(cfg):
-        env = Env(on_call)
+        env = DelEnv(on_call)
         rem = env.declare(BUDGET, 'nat')
         if not setup(env, rem):
             continue
@@ -883,7 +883,7 @@ def _exhaust_exits(run, w, v, seen):
             continue
         tests = [cfg.node(i) for i, l in steps if cfg.node(i).kind == 'test' and l in ('T', 'F')]
         atoms = [a for t in tests for a in _atoms(_norm_test(t.ast))]
-        env = Env(on_call)
+        env = DelEnv(on_call)
         env.declare(BUDGET, 'nat')
         for e in run_steps_inl(env, cfg, steps, w.inliner, rewrite=_norm_test):
             reads = e.ghost.get('creads', ())
@@ -1403,7 +1403,7 @@ def _budget_writes(run, w, v, forced):
         cells = CELLS if sp else [('(no size parameter)', None)]
         for cname, cset in cells:
             for start, steps in paths:
-                env = Env(on_call)
+                env = DelEnv(on_call)
                 rem = env.declare(BUDGET, 'nat')
                 if sp is not None:
                     s = env.var(sp)
